@@ -21,7 +21,9 @@
    Scope of 3 (see props/C28.json level_note): one message level is concrete, the sub-messages
    stored in its cells are abstract values -- deeper levels are the same statement again.
    Findings: FWE1 (Truncate(n), Len < n <= cap, does not panic) contradicts
-   [C28_truncate_out_of_bounds_panics] on the implementation; FWE2 is [C28_FWE2_refuted]. *)
+   [C28_truncate_out_of_bounds_panics] on the implementation.  FWE2 (opaque WhichOneof of a
+   synthetic oneof) is repaired in the code (6a7663d); the model follows the repaired code:
+   [C28_opaque_synthetic_whichoneof]. *)
 From Coq Require Import List NArith ZArith Bool.
 From PB Require Import Base.PBytes Wire.WireModel Msg.MsgSchema Msg.MsgValue.
 From PB Require Import Msg.ReflectModel Msg.ReflectP Msg.ReflectCellModel Msg.ReflectCellP.
@@ -170,12 +172,12 @@ Theorem C28_opaque_refines_abstract :
 Proof. exact opaque_refines_abstract. Qed.
 Print Assumptions C28_opaque_refines_abstract.
 
-(* finding FWE2: the opaque WhichOneof of a synthetic oneof reads a presence bit that non-lazy
-   message fields never set: populated, yet not reported *)
-Theorem C28_FWE2_refuted :
-  exists (fd : fdesc) (c : ocell), opq_has fd c = true /\ opq_which_synthetic fd c = false.
-Proof. exact fwe2_witness. Qed.
-Print Assumptions C28_FWE2_refuted.
+(* WhichOneof of the synthetic oneof of a proto3-optional field on the opaque representation
+   (repaired code, former finding FWE2): the member is reported exactly when it is populated *)
+Theorem C28_opaque_synthetic_whichoneof :
+  forall (fd : fdesc) (c : ocell), opq_which_synthetic fd c = negb (refl_is_nil (opq_vals fd c)).
+Proof. exact opq_which_synthetic_correct. Qed.
+Print Assumptions C28_opaque_synthetic_whichoneof.
 
 (* ---------- non-vacuity ---------- *)
 (* one message type: 1 optional int32, 2 repeated int32, 3 message (oneof 0), 4 string (oneof 0),
